@@ -40,6 +40,7 @@ class Knobs:
         self.eff = ["0.5", "1.5", "2", "0.25", "0.7", "1.3", "0.8", "3"]
         self.p_eff = 0.3
         self.p_team = 0.2
+        self.p_inner = 0.3            # probability that a container holds an inner container (three nesting levels)
         self.p_alt = 0.15
         self.p_dep = 0.5
         self.p_gap = 0.4
@@ -250,7 +251,7 @@ def gen_project(rng, k=None):
             flat.append((cfid, c, True))
             n = rng.choice([1, 2, 2, 3])
             inner = None
-            if pick(rng, 0.3):
+            if pick(rng, k.p_inner):
                 inner = {"id": "in", "children": []}
                 c["children"].append(inner)
                 flat.append((cfid + ".in", inner, True))
